@@ -54,7 +54,7 @@ func c16Same(got, want *z.StructSchema, in map[string]any, d1, d2 *c16Dest) bool
 func C16_Jobs() []string {
 	var out []string
 	for _, op := range []string{"pick", "omit", "extend", "merge", "merge3", "transforms", "pick-map", "omit-map", "chain"} {
-		for k := 0; k <= 3; k++ {
+		for k := 0; k <= 3+3*v.Tier(); k++ { // number of struct tests on the base (spare capacity varies)
 			out = append(out, op+"/t"+string(rune('0'+k)))
 		}
 	}
@@ -423,6 +423,9 @@ func C17_Run(job string) {
 func c17LastCall(kind string) {
 	// modifier alphabet: 0 Required(), 1 Optional(), 2 Default(v1), 3 Default(v2), 4 Catch(v1), 5 Catch(v2), 6 Required(Message("M2"))
 	seq := []int{v.Choice("m0", 7), v.Choice("m1", 7), v.Choice("m2", 7)}
+	if v.Tier() == 1 {
+		seq = append(seq, v.Choice("m3", 7)) // thorough: sequences of four modifier calls
+	}
 	v1, v2 := v.Int("v1"), v.Int("v2")
 	g := v.Int("g")
 	req, reqMsg := false, false
